@@ -40,6 +40,7 @@ type ConnSpec struct {
 	Close     string `json:"close"`               // graceful | open (still open when the agent is stopped)
 	Garbage   bool   `json:"garbage,omitempty"`   // a non-record line first
 	StartMs   int    `json:"startMs,omitempty"`   // ms to wait before opening the connection
+	Bulk      int    `json:"bulk,omitempty"`      // after Recs: this many more records of 3000 bytes for key set (app 0, host 0)
 }
 
 // ReloadSpec is one configuration reload (what SIGHUP triggers) placed during the traffic of a generation.
@@ -77,6 +78,7 @@ type Scenario struct {
 	BatchLogs  int          `json:"batchLogs"`  // defs.IntermediateBufferMaxNumLogs
 	Reloader   bool         `json:"reloader,omitempty"` // run with NewReloaderFromConfigFile
 	Family     string       `json:"family,omitempty"`   // generator family (classification only)
+	FlushMs    int          `json:"flushMs,omitempty"`  // defs.IntermediateFlushInterval in ms (0 = 20): a long interval lets chunks fill up to the byte limit
 	Gens       []Generation `json:"gens"`
 }
 
@@ -137,6 +139,9 @@ type Outcome struct {
 func setDefs(sc Scenario) {
 	defs.InputFlushInterval = 10 * time.Millisecond
 	defs.IntermediateFlushInterval = 20 * time.Millisecond
+	if sc.FlushMs > 0 {
+		defs.IntermediateFlushInterval = time.Duration(sc.FlushMs) * time.Millisecond
+	}
 	defs.IntermediateChannelTimeout = 3 * time.Second
 	defs.IntermediateBufferMaxNumLogs = sc.BatchLogs
 	defs.BufferMaxNumChunksInMemory = sc.MemWindow
@@ -144,6 +149,7 @@ func setDefs(sc Scenario) {
 	defs.ForwarderConnectionTimeout = 300 * time.Millisecond
 	defs.ForwarderHandshakeTimeout = 300 * time.Millisecond
 	defs.ForwarderBatchSendTimeoutBase = 300 * time.Millisecond
+	defs.ForwarderBatchSendMinimumSpeed = 4 << 20 // the send deadline grows by whole seconds of chunk length / this speed: +1 s for a 6 MB chunk
 	defs.ForwarderBatchAckTimeout = 200 * time.Millisecond
 	defs.ForwarderAckerStopTimeout = 400 * time.Millisecond
 	defs.ForwarderRetryInterval = 10 * time.Millisecond
@@ -153,7 +159,7 @@ func setDefs(sc Scenario) {
 
 // StopBound is the bound on shutdownInputs()+Shutdown() derived from the (scaled) configured timeouts plus slack (C18).
 func StopBound() time.Duration {
-	return 2*(defs.ForwarderBatchAckTimeout+defs.ForwarderAckerStopTimeout+defs.ForwarderBatchSendTimeoutBase+3*defs.IntermediateChannelTimeout) + 10*time.Second
+	return 2*time.Second + 2*(defs.ForwarderBatchAckTimeout+defs.ForwarderAckerStopTimeout+defs.ForwarderBatchSendTimeoutBase+3*defs.IntermediateChannelTimeout) + 10*time.Second
 }
 
 func configText(sc Scenario, root string, servers []string, variant string) string {
@@ -531,7 +537,14 @@ func runScenario(sc Scenario) *Outcome {
 					return true
 				}
 				ok := true
-				for _, r := range cs.Recs {
+				allRecs := cs.Recs
+				if cs.Bulk > 0 {
+					allRecs = append(append([]Rec(nil), cs.Recs...), make([]Rec, cs.Bulk)...)
+					for i := len(cs.Recs); i < len(allRecs); i++ {
+						allRecs[i] = Rec{Size: 3000}
+					}
+				}
+				for _, r := range allRecs {
 					key := apps[r.App]
 					if sc.KeyHost {
 						key += "." + hosts[r.Host]
